@@ -43,6 +43,10 @@ OPERATOR_FUNCS = {"operator.add": ast.Add, "operator.sub": ast.Sub, "operator.mu
                   "operator.floordiv": ast.FloorDiv, "operator.mod": ast.Mod, "operator.pow": ast.Pow, "operator.matmul": ast.MatMult,
                   "operator.iadd": ast.Add, "operator.imul": ast.Mult, "operator.and_": ast.BitAnd, "operator.or_": ast.BitOr,
                   "operator.lshift": ast.LShift, "operator.rshift": ast.RShift, "operator.neg": None, "operator.pos": None}
+NP_ARITH = {"np.add": (ast.Add, 2), "np.subtract": (ast.Sub, 2), "np.multiply": (ast.Mult, 2), "np.divide": (ast.Div, 2), "np.true_divide": (ast.Div, 2),
+            "np.power": (ast.Pow, 2), "np.negative": (None, 1)}
+# library calls that, written as a statement, leave their arguments as they are
+NO_EFFECT_STATEMENTS = ("warnings.", "logging.", "print", "np.testing.", "np.seterr", "np.errstate", "np.set_printoptions", "gc.", "time.", "sys.std")
 MAX_DEPTH = 24
 MAX_UNROLL = 400
 
@@ -62,8 +66,14 @@ class Ref:
 class ClassV:
     def __init__(self, name, node, mod):
         self.name, self.node, self.mod = name, node, mod
-        self.methods = {n.name: n for n in node.body if isinstance(n, (ast.FunctionDef, ast.AsyncFunctionDef))}
+        self.methods = {}
+        for n in node.body:
+            if isinstance(n, (ast.FunctionDef, ast.AsyncFunctionDef)):
+                if any(isinstance(d, ast.Attribute) and d.attr in ("setter", "deleter") for d in n.decorator_list):
+                    continue                     # (the setter / deleter of a property: not what a read of the attribute runs)
+                self.methods[n.name] = n
         self.consts = {}
+        self.bases = None                        # module-defined base classes, resolved on first use
 
     def __repr__(self):
         return f"<class {self.name}>"
@@ -107,6 +117,35 @@ class RangeV:
 
     def __init__(self, lo, hi):
         self.lo, self.hi = lo, hi
+
+
+class RepeatV:
+    """itertools.repeat(value, n) with a symbolic count"""
+
+    def __init__(self, value, count):
+        self.value, self.count = value, count
+
+
+SEQ = (tuple, list)        # a Python tuple is a host tuple, a Python list a host list (mutable, shared by its aliases)
+
+
+class _Stop(Exception):
+    """the iterator is exhausted"""
+
+
+class IterV:
+    """an iterator (zip, map, enumerate, iter, reversed, a generator expression, a generator function, itertools.*): it has *state*.
+    Items are produced on demand by a host generator and kept, `pos` is the consumer's position (restored when a trial evaluation is
+    rolled back)."""
+
+    def __init__(self, gen, what="iterator"):
+        self.gen, self.what = gen, what
+        self.buf = []
+        self.pos = 0
+        self.done = False
+
+    def __repr__(self):
+        return f"<{self.what}>"
 
 
 class Native:
@@ -201,6 +240,9 @@ class LoopRec:
         self.init = {}            # name -> value before the loop
         self.out = {}             # name -> value after one pass, over the symbols  <name>@in<k>
         self.k = 0
+        self.exits = []           # (test value, leaves when the test is true?, stands before anything carried is updated?, node) of every
+        #                           `if test: break` in the body: the loop goes on while its own test holds and no exit applies
+        self.exit_assigned = set()   # names an arm assigns just before it leaves
 
     def in_sym(self, name):
         return F.sym(f"{name}@in{self.k}")
@@ -215,6 +257,18 @@ class Frame:
         self.func = func
         self.parent = parent      # enclosing frame (closures)
         self.mod = mod
+        self.outer = {}           # names declared `nonlocal` / `global` -> the dict they are bound in
+        self.gen = False          # the frame of a generator function
+
+
+_MISSING = object()
+
+
+class _ConstsView:
+    """the class-level constants of a ClassV addressed like a DictV (for undo records)"""
+
+    def __init__(self, c):
+        self.d = c.consts
 
 
 # ------------------------------------------------------------------------------------------------------------------ helpers
@@ -236,8 +290,15 @@ def clone(v):
         r = F.Rat.__new__(F.Rat)
         r.n, r.d = v.n, v.d
         return r
-    if isinstance(v, tuple):
-        return tuple(clone(x) for x in v)
+    if isinstance(v, SEQ):
+        return tuple(clone(x) for x in v)          # (a list is snapshot as a tuple: records do not follow later mutation)
+    return v
+
+
+def freeze(v):
+    """the value with every list in it as a tuple (what the rules are handed)"""
+    if isinstance(v, SEQ):
+        return tuple(freeze(x) for x in v)
     return v
 
 
@@ -304,7 +365,7 @@ def atoms_named(v, prefix):
     if isinstance(v, F.Rat):
         walk_poly(v.n)
         walk_poly(v.d)
-    elif isinstance(v, tuple):
+    elif isinstance(v, SEQ):
         for x in v:
             out.extend(atoms_named(x, prefix))
     return out
@@ -324,7 +385,7 @@ def to_rat(v):
         return F.sym(repr(v))
     if isinstance(v, Ref):
         return F.sym("@" + v.name)
-    if isinstance(v, tuple):
+    if isinstance(v, SEQ):
         xs = [to_rat(x) for x in v]
         for x in xs:
             if is_unknown(x):
@@ -351,7 +412,7 @@ def key_of(v):
         return ("py", v)
     if isinstance(v, Ref):
         return ("ref", v.name)
-    if isinstance(v, tuple):
+    if isinstance(v, SEQ):
         ks = tuple(key_of(x) for x in v)
         return None if any(k is None for k in ks) else ("tuple", ks)
     if isinstance(v, (Obj, FuncV, ClassV)):
@@ -369,7 +430,7 @@ def same_value(a, b):
             return a.equals(b)
         except Unsupported:
             return False
-    if isinstance(a, tuple) and isinstance(b, tuple):
+    if isinstance(a, SEQ) and isinstance(b, SEQ):
         return len(a) == len(b) and all(same_value(x, y) for x, y in zip(a, b))
     if isinstance(a, Ref) and isinstance(b, Ref):
         return a.name == b.name
@@ -655,6 +716,95 @@ def _assigned_names(stmts):
     return out
 
 
+def _scan_own(node, kinds):
+    """nodes of the given kinds in the body of a function / statement, not looking into nested functions, lambdas or classes"""
+    stack = list(ast.iter_child_nodes(node))
+    while stack:
+        n = stack.pop()
+        if isinstance(n, kinds):
+            return True
+        if isinstance(n, (ast.FunctionDef, ast.AsyncFunctionDef, ast.Lambda, ast.ClassDef)):
+            continue
+        stack.extend(ast.iter_child_nodes(n))
+    return False
+
+
+def _is_generator(fn):
+    r = getattr(fn, "_v_gen", None)
+    if r is None:
+        r = fn._v_gen = _scan_own(fn, (ast.Yield, ast.YieldFrom))
+    return r
+
+
+def _has_yield(st):
+    if isinstance(st, (ast.FunctionDef, ast.AsyncFunctionDef, ast.ClassDef)):
+        return False
+    return isinstance(st, (ast.Yield, ast.YieldFrom)) or _scan_own(st, (ast.Yield, ast.YieldFrom))
+
+
+TRANSPARENT_DECORATORS = {"staticmethod", "classmethod", "property", "functools.lru_cache", "functools.cache", "lru_cache", "cache", "functools.wraps",
+                          "abstractmethod", "abc.abstractmethod", "typing.final", "final", "override", "typing.override", "typing.no_type_check"}
+
+
+def _transparent_decorator(d):
+    """a decorator that leaves what the function computes as it is (memoisation, markers)"""
+    if isinstance(d, ast.Call):
+        d = d.func
+    try:
+        return ast.unparse(d) in TRANSPARENT_DECORATORS
+    except Exception:  # noqa
+        return False
+
+
+def _loc(e):
+    """the location an undo record is about (None: not a location)"""
+    k = e[0]
+    if k == "var":
+        return ("var", id(e[1]), e[2])
+    if k == "rat":
+        return ("rat", id(e[1]))
+    if k == "attr":
+        return ("attr", id(e[1]), e[2])
+    if k == "dict":
+        return ("dict", id(e[1]), e[2])
+    if k == "list":
+        return ("list", id(e[1]))
+    return None
+
+
+def _old_of(e):
+    k = e[0]
+    if k == "rat":
+        r = F.Rat.__new__(F.Rat)
+        r.n, r.d = e[2], e[3]
+        return r
+    if k == "list":
+        return tuple(e[2])
+    if k == "dict":
+        return e[3] if e[3] is _MISSING else e[3][1]
+    return e[3]
+
+
+def _current(e):
+    k = e[0]
+    if k == "var":
+        return e[1].get(e[2], _MISSING)
+    if k == "rat":
+        return e[1]
+    if k == "attr":
+        return e[1].attrs.get(e[2], _MISSING)
+    if k == "dict":
+        v = e[1].d.get(e[2], _MISSING)
+        return v if v is _MISSING else v[1]
+    if k == "list":
+        return e[1]
+    return None
+
+
+def _snapshot(v):
+    return v if v is _MISSING else clone(v)
+
+
 def _only_raises(stmts):
     """an arm that can do nothing but raise"""
     if not stmts:
@@ -711,6 +861,112 @@ class Interp:
         self._evaluating = set()
         self._classes = {}
         self._names = {}
+        self._journals = []              # trial evaluations: undo records of every mutation (see `begin` / `rollback` / `commit`)
+        self._loopmode = []              # innermost loop activations of the frame being run: LoopRec (summarised) | "fold" | None (a call)
+        self._merges = 0
+        self._loopk = 0
+        self._modvars = {}               # module rel -> {name: value} for names rebound through a `global` declaration
+
+    # ------------------------------------------------------------------ trial evaluation
+    # Every mutation the evaluator makes (a local bound, an array / list / dict / object updated in place, a record appended) goes through
+    # the methods below.  `begin()` opens a trial, `rollback()` restores the state it was opened in, `commit()` keeps it.  Used to (1) run
+    # both arms of an undecided `if` from the same state, (2) unroll a loop by constant folding and fall back to a one-pass summary when
+    # a test in it turns out undecided.
+    def begin(self):
+        j = {"undo": [], "marks": (len(self.calls), len(self.loops), len(self.cells), len(self.inplace), self.seq),
+             "oracle": self.oracle.save() if hasattr(self.oracle, "save") else None, "loopmode": len(self._loopmode), "depth": self.depth}
+        self._journals.append(j)
+        return j
+
+    def _log(self, *entry):
+        if self._journals:
+            self._journals[-1]["undo"].append(entry)
+
+    def _close(self, j):
+        """pop the trial j (and any trial opened inside it that an exception left open); its undo records in chronological order"""
+        inner = []
+        while self._journals and self._journals[-1] is not j:
+            inner.append(self._journals.pop())
+        assert self._journals and self._journals[-1] is j
+        self._journals.pop()
+        undo = j["undo"]
+        for x in reversed(inner):
+            undo = undo + x["undo"]
+        return undo
+
+    def commit(self, j):
+        undo = self._close(j)
+        if self._journals:
+            self._journals[-1]["undo"].extend(undo)
+
+    def rollback(self, j, keep_calls=False):
+        """restore the state `begin()` saw; returns the call records made since (so a caller may keep them as `maybe` records)"""
+        for e in reversed(self._close(j)):
+            self._undo(e)
+        nc, nl, ncell, nin, seq = j["marks"]
+        made = self.calls[nc:]
+        del self.calls[nc:]
+        del self.loops[nl:]
+        del self.cells[ncell:]
+        del self.inplace[nin:]
+        if not keep_calls:
+            self.seq = seq
+        del self._loopmode[j["loopmode"]:]
+        self.depth = j["depth"]
+        if j["oracle"] is not None:
+            self.oracle.load(j["oracle"])
+        return made
+
+    @staticmethod
+    def _undo(e):
+        k = e[0]
+        if k == "var":
+            _k, d, name, old = e
+            if old is _MISSING:
+                d.pop(name, None)
+            else:
+                d[name] = old
+        elif k == "rat":
+            _k, obj, n_, d_ = e
+            obj.n, obj.d = n_, d_
+        elif k == "attr":
+            _k, obj, name, old = e
+            if old is _MISSING:
+                obj.attrs.pop(name, None)
+            else:
+                obj.attrs[name] = old
+        elif k == "dict":
+            _k, d, key, old = e
+            if old is _MISSING:
+                d.d.pop(key, None)
+            else:
+                d.d[key] = old
+        elif k == "list":
+            _k, lst, old = e
+            lst[:] = old
+        elif k == "iter":
+            _k, itv, pos = e
+            itv.pos = pos
+
+    def _set_var(self, fr, name, v):
+        d = fr.outer.get(name, fr.vars)          # (a name declared nonlocal / global is bound where it lives)
+        self._log("var", d, name, d.get(name, _MISSING))
+        d[name] = v
+
+    def _set_rat(self, obj, new):
+        self._log("rat", obj, obj.n, obj.d)
+        obj.n, obj.d = new.n, new.d
+
+    def _set_attr(self, obj, name, v):
+        self._log("attr", obj, name, obj.attrs.get(name, _MISSING))
+        obj.attrs[name] = v
+
+    def _set_item(self, d, key, val):
+        self._log("dict", d, key, d.d.get(key, _MISSING))
+        d.d[key] = val
+
+    def _touch_list(self, lst):
+        self._log("list", lst, list(lst))
 
     # ------------------------------------------------------------------ module level
     def cls(self, name, mod=None):
@@ -791,7 +1047,7 @@ class Interp:
         if self_obj is not None:
             f = f.bind(self_obj)
         try:
-            return self._invoke(f, [clone(p) for p in pos], {k: clone(v) for k, v in (kw or {}).items()}, f.node)
+            return freeze(self._invoke(f, [clone(p) for p in pos], {k: clone(v) for k, v in (kw or {}).items()}, f.node))
         except _Raise as r:
             return Raised(r.node)
         except _CrashSig as c:
@@ -802,7 +1058,7 @@ class Interp:
         if not isinstance(f, FuncV):
             raise AnchorError(f"{obj!r} has no method {name}")
         try:
-            return self._invoke(f, [clone(p) for p in pos], {k: clone(v) for k, v in (kw or {}).items()}, f.node)
+            return freeze(self._invoke(f, [clone(p) for p in pos], {k: clone(v) for k, v in (kw or {}).items()}, f.node))
         except _Raise as r:
             return Raised(r.node)
         except _CrashSig as c:
@@ -811,7 +1067,7 @@ class Interp:
     def attr(self, obj, name, node=None):
         """value of obj.name (a property of the module's class is evaluated)"""
         try:
-            return self._getattr(obj, name, node)
+            return freeze(self._getattr(obj, name, node))
         except _Raise as r:
             return Raised(r.node)
         except _CrashSig as c:
@@ -834,7 +1090,7 @@ class Interp:
         saved = (self.calls, self.loops, self.cells, self.inplace)
         self.calls, self.loops, self.cells, self.inplace = [], [], [], []
         try:
-            return self.ev(ast.parse(text, mode="eval").body, fr)
+            return freeze(self.ev(ast.parse(text, mode="eval").body, fr))
         except _CrashSig as c:
             return c.crash
         finally:
@@ -882,11 +1138,11 @@ class Interp:
             return False
         if v is True:
             return True
-        if isinstance(v, (str, tuple)):
+        if isinstance(v, (str, tuple, list)):
             return len(v) > 0
         if isinstance(v, DictV):
             return len(v.d) > 0
-        if isinstance(v, (Obj, FuncV, ClassV, Ref, Native)):
+        if isinstance(v, (Obj, FuncV, ClassV, Ref, Native, IterV)):
             return True
         if is_const(v):
             return cval(v) != 0
@@ -952,6 +1208,9 @@ class Interp:
                 return f.vars[name]
             f = f.parent
         mod = fr.mod or self.mod
+        mv = self._modvars.get(mod.rel)
+        if mv is not None and name in mv:
+            return mv[name]
         v = self._global(name, mod)
         if v is not None:
             return v
@@ -1068,6 +1327,7 @@ class Interp:
             c = base.cls
             if name == "__class__" and c is not None:
                 return c
+            c = self._owner(c, name) if c is not None else None          # the class (or module-defined base class) that defines it
             if c is not None and name not in c.methods:
                 cv = self._class_const(c, name)
                 if cv is not None:
@@ -1098,18 +1358,48 @@ class Interp:
                     return r
             return F.fn("attr:" + name, base)
         if isinstance(base, ClassV):
+            cls0 = base
+            base = self._owner(base, name)
             if name in base.methods:
                 fn = base.methods[name]
                 self.src.funcs_consulted.add(f"{base.mod.rel}:{base.name}.{name}")
-                bound = base if any(isinstance(d, ast.Name) and d.id == "classmethod" for d in fn.decorator_list) else None
+                bound = cls0 if any(isinstance(d, ast.Name) and d.id == "classmethod" for d in fn.decorator_list) else None
                 return FuncV(fn, base.mod, None, bound, base, f"{base.name}.{name}")
             if name == "__name__":
-                return base.name
+                return cls0.name
             cv = self._class_const(base, name)
             if cv is not None:
                 return cv
             return Unknown(f"class attribute {name}")
         return Unknown(f"attribute {name} of {type(base).__name__}")
+
+    def _bases(self, c):
+        if c.bases is None:
+            c.bases = []
+            for b in c.node.bases:
+                try:
+                    bv = self.ev(b, Frame(None, None, c.mod))
+                except Unsupported:
+                    continue
+                if isinstance(bv, ClassV) and bv is not c:
+                    c.bases.append(bv)
+        return c.bases
+
+    def _owner(self, c, name, depth=0):
+        """the first class in c's (module-defined) ancestry whose body binds `name`; c itself when none does"""
+        def binds(k):
+            if name in k.methods:
+                return True
+            return any(isinstance(st, (ast.Assign, ast.AnnAssign)) and getattr(st, "value", None) is not None
+                       and any(isinstance(x, ast.Name) and x.id == name for t in (st.targets if isinstance(st, ast.Assign) else [st.target]) for x in ast.walk(t))
+                       for st in k.node.body)
+        if binds(c) or depth > 8:
+            return c
+        for b in self._bases(c):
+            o = self._owner(b, name, depth + 1)
+            if binds(o):
+                return o
+        return c
 
     def _class_const(self, c, name):
         """value of a name bound once at class level (a constant table of the class), else None"""
@@ -1182,10 +1472,16 @@ class Interp:
             if isinstance(op, ast.Mult) and is_const(b):
                 return a * int(cval(b))
             return Unknown("string operator")
-        if isinstance(a, tuple) and isinstance(b, tuple) and isinstance(op, ast.Add):
+        if isinstance(a, SEQ) and isinstance(b, SEQ) and isinstance(op, ast.Add):
+            if type(a) is not type(b):
+                return Crash("TypeError: can only concatenate a list to a list, a tuple to a tuple")
             return a + b
-        if isinstance(a, tuple) and is_const(b) and isinstance(op, ast.Mult):
+        if isinstance(a, SEQ) and is_const(b) and isinstance(op, ast.Mult) and cval(b).denominator == 1:
             return a * int(cval(b))
+        if isinstance(b, SEQ) and is_const(a) and isinstance(op, ast.Mult) and cval(a).denominator == 1:
+            return b * int(cval(a))
+        if isinstance(a, (IterV, RepeatV, RangeV, DictV)) or isinstance(b, (IterV, RepeatV, RangeV, DictV)):
+            return Unknown("arithmetic on an iterator / dict")
         a, b = to_rat(a), to_rat(b)
         if is_unknown(a):
             return a
@@ -1237,6 +1533,8 @@ class Interp:
             raise Unsupported("format argument is not a constant")
         try:
             args = tuple(py(x) for x in arg) if isinstance(arg, tuple) else py(arg)
+            if isinstance(arg, list):
+                return Unknown("format of a list")
             if isinstance(args, Fraction):
                 args = float(args)
             elif isinstance(args, tuple):
@@ -1321,7 +1619,7 @@ class Interp:
                     return Unknown("membership of an unhashable value")
                 r = k in b.d
                 return (not r) if neg else r
-            if isinstance(b, (tuple, str)) and not (isinstance(b, str) and not isinstance(a, str)):
+            if isinstance(b, (tuple, list, str)) and not (isinstance(b, str) and not isinstance(a, str)):
                 if isinstance(b, str):
                     r = a in b
                     return (not r) if neg else r
@@ -1349,6 +1647,10 @@ class Interp:
         if is_const(a) and is_const(b):
             x, y = cval(a), cval(b)
             return {ast.Lt: x < y, ast.LtE: x <= y, ast.Gt: x > y, ast.GtE: x >= y}[type(op)]
+        if self.hook is not None and isinstance(a, F.Rat) and isinstance(b, F.Rat):
+            r = self.hook(self, "compare:" + type(op).__name__, [a, b], {}, None)
+            if r is True or r is False:
+                return r
         x, y = to_rat(a), to_rat(b)
         if is_unknown(x) or is_unknown(y):
             return x if is_unknown(x) else y
@@ -1361,7 +1663,9 @@ class Interp:
             return type(a) is type(b) and a == b
         if isinstance(a, Ref) and isinstance(b, Ref):
             return True if a.name == b.name else None
-        if isinstance(a, tuple) and isinstance(b, tuple):
+        if isinstance(a, SEQ) and isinstance(b, SEQ):
+            if type(a) is not type(b):
+                return False                    # (a list never equals a tuple)
             if len(a) != len(b):
                 return False
             rs = [self._eq(x, y) for x, y in zip(a, b)]
@@ -1380,9 +1684,9 @@ class Interp:
         # a number is never None / a string ; a symbol may be anything except None (symbols stand for values that are present)
         if (is_const(a) and py(b)) or (is_const(b) and py(a)):
             return False
-        if (a is None and isinstance(b, (F.Rat, tuple, Obj, Ref, DictV))) or (b is None and isinstance(a, (F.Rat, tuple, Obj, Ref, DictV))):
+        if (a is None and isinstance(b, (F.Rat, tuple, list, Obj, Ref, DictV, IterV))) or (b is None and isinstance(a, (F.Rat, tuple, list, Obj, Ref, DictV, IterV))):
             return False
-        if isinstance(a, tuple) != isinstance(b, tuple) and (py(a) or py(b)):
+        if isinstance(a, SEQ) != isinstance(b, SEQ) and (py(a) or py(b)):
             return False
         return None
 
@@ -1390,9 +1694,9 @@ class Interp:
         out = []
         for e in node.elts:
             if isinstance(e, ast.Starred):
-                v = self.ev(e.value, fr)
-                if not isinstance(v, tuple):
-                    return Unknown("starred non-tuple")
+                v = self._iterable(self.ev(e.value, fr))
+                if v is None:
+                    return Unknown("starred value of unknown length")
                 out.extend(v)
             else:
                 out.append(self.ev(e, fr))
@@ -1401,7 +1705,9 @@ class Interp:
                 return v
         return tuple(out)
 
-    _e_List = _e_Tuple
+    def _e_List(self, node, fr):
+        v = self._e_Tuple(node, fr)
+        return list(v) if isinstance(v, tuple) else v
 
     def _e_Dict(self, node, fr):
         d = DictV()
@@ -1478,7 +1784,7 @@ class Interp:
         base = self.ev(node.value, fr)
         if is_unknown(base):
             return base
-        if isinstance(base, (tuple, str)):
+        if isinstance(base, (tuple, list, str)):
             ix = self._py_index(node.slice, fr)
             if ix is None:
                 return Unknown(f"non-constant index into a sequence: {ast.unparse(node)}")
@@ -1548,9 +1854,40 @@ class Interp:
             self._comprehension(lambda f: self.ev(node.elt, f), node.generators, fr, out)
         except Unsupported as e:
             return Unknown(str(e))
-        return tuple(out)
+        return out
 
-    _e_GeneratorExp = _e_ListComp
+    def _e_GeneratorExp(self, node, fr):
+        """a generator expression is an iterator: the first iterable is evaluated now, everything else when an item is asked for"""
+        gens = node.generators
+        first = self._iter(self.ev(gens[0].iter, fr))
+        if first is None:
+            return Unknown(f"generator expression over an unknown sequence: {ast.unparse(gens[0].iter)}")
+
+        def rec(i, f, seq):
+            g = gens[i]
+            if seq is None:
+                seq = self._iter(self.ev(g.iter, f))
+                if seq is None:
+                    raise Unsupported(f"generator expression over an unknown sequence: {ast.unparse(g.iter)}")
+            for item in seq:
+                f2 = Frame(f.func, f, f.mod)
+                self._bind_target(g.target, item, f2, g.iter)
+                ok = True
+                for cond in g.ifs:
+                    r = self.decide(cond, f2)
+                    if r is None:
+                        raise Unsupported(f"undecided filter of a generator expression: {ast.unparse(cond)}")
+                    if not r:
+                        ok = False
+                        break
+                if not ok:
+                    continue
+                if i + 1 == len(gens):
+                    yield self.ev(node.elt, f2)
+                else:
+                    yield from rec(i + 1, f2, None)
+
+        return IterV(rec(0, fr, first), "generator expression")
 
     def _e_DictComp(self, node, fr):
         out = []
@@ -1567,12 +1904,67 @@ class Interp:
         return d
 
     def _iterable(self, v):
-        if isinstance(v, tuple):
+        """all (remaining) items of an iterable value as a list (an iterator is consumed), or None"""
+        if isinstance(v, SEQ):
             return list(v)
         if isinstance(v, DictV):
             return [kv for kv, _ in v.d.values()]
         if isinstance(v, str):
             return list(v)
+        if isinstance(v, IterV):
+            return list(self._iter(v))
+        if isinstance(v, RepeatV) and is_const(v.count) and cval(v.count).denominator == 1:
+            return [v.value] * max(int(cval(v.count)), 0)
+        return None
+
+    def _next(self, itv):
+        """the next item of an iterator; raises _Stop when there is none"""
+        if itv.pos < len(itv.buf):
+            v = itv.buf[itv.pos]
+        else:
+            if itv.done:
+                raise _Stop()
+            if len(itv.buf) >= MAX_UNROLL:
+                raise Unsupported(f"{itv.what} yields more than {MAX_UNROLL} items")
+            try:
+                v = next(itv.gen)
+            except StopIteration:
+                itv.done = True
+                raise _Stop()
+            except ValueError as e:
+                if "already executing" in str(e):
+                    raise Unsupported(f"{itv.what} advanced re-entrantly")
+                raise
+            itv.buf.append(v)
+        self._log("iter", itv, itv.pos)
+        itv.pos += 1
+        return v
+
+    def _iter(self, v):
+        """a host iterator over the items of an iterable value, produced on demand (a list is read as it is at that moment); None when
+        the value is not a known finite iterable"""
+        if isinstance(v, list):
+            def live():
+                k = 0
+                while k < len(v):
+                    yield v[k]
+                    k += 1
+            return live()
+        if isinstance(v, (tuple, str)):
+            return iter(v)
+        if isinstance(v, DictV):
+            return iter([kv for kv, _ in v.d.values()])
+        if isinstance(v, IterV):
+            def pull():
+                while True:
+                    try:
+                        x = self._next(v)
+                    except _Stop:
+                        return
+                    yield x
+            return pull()
+        if isinstance(v, RepeatV) and is_const(v.count) and cval(v.count).denominator == 1:
+            return iter([v.value] * max(int(cval(v.count)), 0))
         return None
 
     # ------------------------------------------------------------------ calls
@@ -1581,8 +1973,8 @@ class Interp:
         pos = []
         for a in node.args:
             if isinstance(a, ast.Starred):
-                v = self.ev(a.value, fr)
-                if not isinstance(v, tuple):
+                v = self._iterable(self.ev(a.value, fr))
+                if v is None:
                     return Unknown("starred argument of unknown length")
                 pos.extend(v)
             else:
@@ -1756,22 +2148,123 @@ class Interp:
                     return base.d[k][1]
                 return pos[1] if len(pos) > 1 else None
             return Unknown(f"dict.{attr}")
-        if isinstance(base, tuple):
+        if isinstance(base, SEQ):
             if attr == "index" and len(pos) == 1:
                 for i, x in enumerate(base):
-                    if self.compare(ast.Eq(), x, pos[0]) is True:
+                    e = self.compare(ast.Eq(), x, pos[0])
+                    if e is True:
                         return F.const(i)
+                    if e is not False:
+                        return Unknown("undecided sequence.index")
+                return Crash("ValueError: value is not in the sequence")
+            if attr == "count" and len(pos) == 1:
+                es = [self.compare(ast.Eq(), x, pos[0]) for x in base]
+                if all(e is True or e is False for e in es):
+                    return F.const(sum(1 for e in es if e is True))
+                return Unknown("undecided sequence.count")
+            if isinstance(base, list):
+                return self._list_method(base, attr, pos, kw)
             return Unknown(f"tuple.{attr}")
+        if isinstance(base, IterV):
+            if attr == "__next__" and not pos:
+                try:
+                    return self._next(base)
+                except _Stop:
+                    raise _Raise(node)
+            return Unknown(f"{base.what}.{attr}")
         if isinstance(base, F.Rat):
             if attr == "copy" and not pos:
                 return clone(base)
+            if attr == "fill" and len(pos) == 1 and not kw and self.erase:
+                new = to_rat(pos[0])
+                self._note_inplace(base, node)
+                if isinstance(new, F.Rat) and not is_unknown(new):
+                    self._set_rat(base, new)
+                else:
+                    self._clobber(base, ".fill of a value that could not be evaluated")
+                return None
             if attr in ("astype", "ravel", "squeeze", "flatten", "conj", "view", "reshape", "toarray", "todense", "transpose"):
                 return base
             v = self._opaque("." + attr, [base] + list(pos), kw)
             return v
         return Unknown(f"method {attr} of {type(base).__name__}")
 
+    def _list_method(self, lst, attr, pos, kw):
+        """the mutating methods of a list act on the object (every alias sees them)"""
+        n = len(pos)
+
+        def index(v, lo, hi):
+            if is_const(v) and cval(v).denominator == 1:
+                return int(cval(v))
+            raise Unsupported("list method with a non-constant index")
+        if any(is_crash(p_) for p_ in pos):
+            return next(p_ for p_ in pos if is_crash(p_))
+        if attr == "append" and n == 1 and not kw:
+            self._touch_list(lst)
+            lst.append(pos[0])
+            return None
+        if attr == "extend" and n == 1 and not kw:
+            xs = self._iterable(pos[0])
+            if xs is None:
+                self._touch_list(lst)
+                lst[:] = [Unknown("list extended by an unknown sequence")]
+                return None
+            self._touch_list(lst)
+            lst.extend(xs)
+            return None
+        if attr == "insert" and n == 2 and not kw:
+            self._touch_list(lst)
+            lst.insert(index(pos[0], 0, 0), pos[1])
+            return None
+        if attr == "pop" and n <= 1 and not kw:
+            if not lst:
+                return Crash("IndexError: pop from empty list")
+            self._touch_list(lst)
+            try:
+                return lst.pop(index(pos[0], 0, 0)) if n else lst.pop()
+            except IndexError:
+                return Crash("IndexError: pop index out of range")
+        if attr == "reverse" and n == 0:
+            self._touch_list(lst)
+            lst.reverse()
+            return None
+        if attr == "clear" and n == 0:
+            self._touch_list(lst)
+            del lst[:]
+            return None
+        if attr == "copy" and n == 0:
+            return list(lst)
+        if attr == "sort" and n == 0 and set(kw) <= {"reverse"} and all(is_const(x) for x in lst):
+            self._touch_list(lst)
+            lst.sort(key=cval, reverse=bool(self.truth(kw.get("reverse", False))))
+            return None
+        if attr == "remove" and n == 1:
+            for i, x in enumerate(lst):
+                e = self.compare(ast.Eq(), x, pos[0])
+                if e is True:
+                    self._touch_list(lst)
+                    del lst[i]
+                    return None
+                if e is not False:
+                    break
+        # anything else may have changed the list in a way that was not followed
+        self._touch_list(lst)
+        lst[:] = [Unknown(f"list.{attr} not followed")]
+        return Unknown(f"list.{attr}")
+
     def _call_named(self, name, pos, kw, node, fr):
+        if kw.get("out") is not None and (name.startswith("np.") or name.startswith("la.")):
+            # f(..., out=X): the result is stored into the array X (every alias sees it) and X is returned
+            out = kw["out"]
+            r = self._call_named(name, pos, {k: v for k, v in kw.items() if k != "out"}, node, fr)
+            if isinstance(out, F.Rat):
+                self._note_inplace(out, node)
+                if isinstance(r, F.Rat) and not is_unknown(r) and self.erase:
+                    self._set_rat(out, r)
+                else:
+                    self._clobber(out, f"out= of {name}")
+                return out
+            return Unknown(f"{name} with an out= that is not an array the evaluator follows")
         rec = self._record(name, None, pos, kw, node)
         if self.hook is not None:
             r = self.hook(self, name, pos, kw, node)
@@ -1789,10 +2282,12 @@ class Interp:
         if any(is_unknown(p) for p in pos):
             return next(p for p in pos if is_unknown(p))
         if name == "len" and n == 1:
-            if isinstance(pos[0], (tuple, str)):
+            if isinstance(pos[0], (tuple, list, str)):
                 return F.const(len(pos[0]))
             if isinstance(pos[0], DictV):
                 return F.const(len(pos[0].d))
+            if isinstance(pos[0], (IterV, RepeatV)):
+                return Unknown("len() of an iterator")
             return NotImplemented
         if name == "range" and 1 <= n <= 3:
             if all(is_const(p) and cval(p).denominator == 1 for p in pos):
@@ -1802,28 +2297,202 @@ class Interp:
             if n == 2:
                 return RangeV(to_rat(pos[0]), to_rat(pos[1]))
             return NotImplemented
-        if name == "zip":
-            seqs = [self._iterable(p) for p in pos]
-            if any(s is None for s in seqs):
+        # iterators: zip, enumerate, map, filter, reversed, iter produce their items on demand and have a position
+        if name in ("zip", "itertools.zip_longest"):
+            its = [self._iter(p) for p in pos]
+            if any(s is None for s in its):
                 return Unknown("zip of an unknown sequence")
-            return tuple(tuple(t) for t in zip(*seqs))
+            longest = name != "zip"
+            fill = kw.get("fillvalue")
+
+            def zipped():
+                if not its:
+                    return
+                while True:
+                    row, live = [], 0
+                    for s_ in its:
+                        try:
+                            row.append(next(s_))
+                            live += 1
+                        except StopIteration:
+                            if not longest:
+                                return
+                            row.append(fill)
+                    if not live:
+                        return
+                    yield tuple(row)
+            return IterV(zipped(), "zip")
         if name == "enumerate" and n >= 1:
-            s = self._iterable(pos[0])
+            s = self._iter(pos[0])
             if s is None:
                 return Unknown("enumerate of an unknown sequence")
-            st = int(cval(pos[1])) if n > 1 and is_const(pos[1]) else 0
-            return tuple((F.const(i + st), x) for i, x in enumerate(s))
-        if name == "reversed" and n == 1 and isinstance(pos[0], tuple):
-            return tuple(reversed(pos[0]))
+            st = kw.get("start", pos[1] if n > 1 else F.const(0))
+            if not (is_const(st) and cval(st).denominator == 1):
+                return Unknown("enumerate with a computed start")
+            st = int(cval(st))
+            return IterV(((F.const(i + st), x) for i, x in enumerate(s)), "enumerate")
+        if name == "reversed" and n == 1 and isinstance(pos[0], SEQ):
+            return IterV(iter(list(reversed(pos[0]))), "reversed")
+        if name == "iter" and n == 1:
+            if isinstance(pos[0], IterV):
+                return pos[0]
+            s = self._iter(pos[0])
+            return IterV(s, "iterator") if s is not None else Unknown("iter() of an unknown sequence")
+        if name in ("map", "itertools.starmap") and n >= 2 and isinstance(pos[0], (FuncV, ClassV, Ref, Native)):
+            its = [self._iter(p) for p in pos[1:]]
+            if any(s is None for s in its):
+                return Unknown("map over an unknown sequence")
+            f0 = pos[0]
+            star = name != "map"
+
+            def mapped():
+                for row in zip(*its):
+                    if star:
+                        xs = self._iterable(row[0])
+                        if xs is None:
+                            raise Unsupported("starmap over items of unknown length")
+                        yield self.apply(f0, list(xs), {}, node, fr)
+                    else:
+                        yield self.apply(f0, list(row), {}, node, fr)
+            return IterV(mapped(), "map")
+        if name in ("filter", "itertools.takewhile", "itertools.dropwhile", "itertools.filterfalse") and n == 2 and (pos[0] is None or isinstance(pos[0], (FuncV, Ref, Native))):
+            s = self._iter(pos[1])
+            if s is None:
+                return Unknown(f"{name} over an unknown sequence")
+            f0 = pos[0]
+
+            def filtered():
+                dropping = name.endswith("dropwhile")
+                for x in s:
+                    t = self.truth(x if f0 is None else self.apply(f0, [x], {}, node, fr), node)
+                    if t is None:
+                        raise Unsupported(f"undecided predicate of {name}")
+                    if name == "filter":
+                        if t:
+                            yield x
+                    elif name.endswith("filterfalse"):
+                        if not t:
+                            yield x
+                    elif name.endswith("takewhile"):
+                        if not t:
+                            return
+                        yield x
+                    else:
+                        if dropping and t:
+                            continue
+                        dropping = False
+                        yield x
+            return IterV(filtered(), name)
+        if name in ("itertools.chain", "itertools.chain.from_iterable"):
+            outer = self._iter(pos[0]) if name.endswith("from_iterable") and n == 1 else iter(list(pos))
+            if outer is None:
+                return Unknown("chain over an unknown sequence")
+
+            def chained():
+                for part in outer:
+                    s_ = self._iter(part)
+                    if s_ is None:
+                        raise Unsupported("itertools.chain over an unknown sequence")
+                    yield from s_
+            return IterV(chained(), "chain")
+        if name == "itertools.repeat" and 1 <= n <= 2 and set(kw) <= {"times"}:
+            cnt = kw.get("times", pos[1] if n == 2 else None)
+            if cnt is None:
+                def forever():
+                    while True:
+                        yield pos[0]
+                return IterV(forever(), "repeat")
+            cnt = to_rat(cnt)
+            if is_const(cnt) and cval(cnt).denominator == 1:
+                return IterV(iter([pos[0]] * max(int(cval(cnt)), 0)), "repeat")
+            return RepeatV(pos[0], cnt)
+        if name == "itertools.count" and n <= 2:
+            start = kw.get("start", pos[0] if n >= 1 else F.const(0))
+            step = kw.get("step", pos[1] if n == 2 else F.const(1))
+
+            def counting():
+                v_ = start
+                while True:
+                    yield v_
+                    v_ = self.binop(ast.Add(), v_, step, node)
+            return IterV(counting(), "count")
+        if name == "itertools.islice" and 2 <= n <= 4 and not kw:
+            s = self._iter(pos[0])
+            try:
+                idx = [None if p_ is None else int(cval(p_)) for p_ in pos[1:]]
+            except Exception:  # noqa
+                return Unknown("islice with a computed bound")
+            if s is None or any(p_ is not None and not (is_const(p_) and cval(p_).denominator == 1) for p_ in pos[1:]):
+                return Unknown("islice of an unknown sequence / with a computed bound")
+            import itertools as _it
+            return IterV(_it.islice(s, *idx), "islice")
+        if name == "itertools.accumulate" and 1 <= n <= 2 and set(kw) <= {"func", "initial"}:
+            s = self._iter(pos[0])
+            f0 = kw.get("func", pos[1] if n == 2 else None)
+            if s is None:
+                return Unknown("accumulate over an unknown sequence")
+
+            def acc():
+                have = "initial" in kw and kw["initial"] is not None
+                tot = kw.get("initial")
+                if have:
+                    yield tot
+                for x in s:
+                    if not have:
+                        tot, have = x, True
+                    else:
+                        tot = self.binop(ast.Add(), tot, x, node) if f0 is None else self.apply(f0, [tot, x], {}, node, fr)
+                    yield tot
+            return IterV(acc(), "accumulate")
+        if name == "itertools.product" and not kw:
+            seqs = [self._iterable(p) for p in pos]
+            if any(s is None for s in seqs):
+                return Unknown("product of an unknown sequence")
+            import itertools as _it
+            return IterV(iter([tuple(t) for t in _it.product(*seqs)]), "product")
+        if name == "itertools.pairwise" and n == 1:
+            xs = self._iterable(pos[0])
+            if xs is None:
+                return Unknown("pairwise of an unknown sequence")
+            return IterV(iter([(a_, b_) for a_, b_ in zip(xs, xs[1:])]), "pairwise")
+        if name.startswith("itertools."):
+            return Unknown(f"{name} is not followed")
         if name in ("tuple", "list") and n <= 1:
             if n == 0:
-                return ()
+                return () if name == "tuple" else []
             s = self._iterable(pos[0])
-            return tuple(s) if s is not None else Unknown("tuple() of an unknown sequence")
-        if name == "dict" and n == 0 and not kw:
-            return DictV()
+            if s is None:
+                return Unknown(f"{name}() of an unknown sequence")
+            return tuple(s) if name == "tuple" else list(s)
+        if name == "sorted" and n == 1 and set(kw) <= {"reverse"}:
+            s = self._iterable(pos[0])
+            if s is None or not all(is_const(x) for x in s):
+                return Unknown("sorted() of values that are not constants")
+            return sorted(s, key=cval, reverse=bool(self.truth(kw.get("reverse", False))))
+        if name == "dict" and n <= 1:
+            d = DictV()
+            if n == 1:
+                if isinstance(pos[0], DictV):
+                    d.d.update(pos[0].d)
+                else:
+                    items = self._iterable(pos[0])
+                    if items is None:
+                        return Unknown("dict() of an unknown sequence")
+                    for it_ in items:
+                        kvp = self._iterable(it_)
+                        if kvp is None or len(kvp) != 2 or key_of(kvp[0]) is None:
+                            return Unknown("dict() of items that are not pairs")
+                        d.d[key_of(kvp[0])] = (kvp[0], kvp[1])
+            for k_, v_ in kw.items():
+                d.d[("py", k_)] = (k_, v_)
+            return d
         if name in ("max", "min") and n >= 1:
-            xs = list(pos[0]) if n == 1 and isinstance(pos[0], tuple) else list(pos)
+            if n == 1 and isinstance(pos[0], (IterV, DictV)):
+                xs = self._iterable(pos[0])
+            else:
+                xs = list(pos[0]) if n == 1 and isinstance(pos[0], SEQ) else list(pos)
+            if kw:
+                return Unknown(f"{name}() with key / default")
             if xs and all(is_const(x) for x in xs):
                 f = max if name == "max" else min
                 return F.const(f(cval(x) for x in xs))
@@ -1871,32 +2540,31 @@ class Interp:
                 tot = self.binop(ast.Add(), tot, x)
             return tot
         if name in ("any", "all") and n == 1:
-            s = self._iterable(pos[0])
+            s = self._iter(pos[0])
             if s is None:
                 return NotImplemented
-            ts = [self.truth(x, node) for x in s]
-            if name == "any":
-                if any(t is True for t in ts):
-                    return True
-                return False if all(t is False for t in ts) else Unknown("undecided any()")
-            if any(t is False for t in ts):
-                return False
-            return True if all(t is True for t in ts) else Unknown("undecided all()")
+            for x in s:                              # (stops at the first decisive item, as Python does)
+                t = self.truth(x, node)
+                if t is None:
+                    return Unknown(f"undecided {name}()")
+                if t is (name == "any"):
+                    return t
+            return name == "all"
         if name == "next" and n >= 1:
-            s = self._iterable(pos[0])
-            if s is None:
-                return Unknown("next() of an unknown iterator")
-            if s:
-                return s[0]
-            if n > 1:
-                return pos[1]
-            raise _Raise(node)
+            if not isinstance(pos[0], IterV):
+                return Unknown("next() of a value that is not a followed iterator")
+            try:
+                return self._next(pos[0])
+            except _Stop:
+                if n > 1:
+                    return pos[1]
+                raise _Raise(node)
         if name in OPERATOR_FUNCS and not kw and n == (1 if name in ("operator.neg", "operator.pos") else 2):
             if n == 1:
                 v = to_rat(pos[0])
                 return v if is_unknown(v) or name == "operator.pos" else -v
             return self.binop(OPERATOR_FUNCS[name](), pos[0], pos[1], node)
-        if name == "operator.getitem" and n == 2 and not kw and isinstance(pos[0], tuple) and is_const(pos[1]) and cval(pos[1]).denominator == 1:
+        if name == "operator.getitem" and n == 2 and not kw and isinstance(pos[0], SEQ) and is_const(pos[1]) and cval(pos[1]).denominator == 1:
             try:
                 return pos[0][int(cval(pos[1]))]
             except IndexError:
@@ -1906,6 +2574,33 @@ class Interp:
             if isinstance(f0, (FuncV, ClassV, Ref, Native)):
                 return Native("partial", lambda it_, p_, k_, nd_: it_.apply(f0, pre + list(p_), {**prekw, **k_}, nd_, fr))
             return Unknown("functools.partial of a value that is not a function")
+        if name == "operator.itemgetter" and n == 1 and not kw and is_const(pos[0]) and cval(pos[0]).denominator == 1:
+            k0 = int(cval(pos[0]))
+
+            def getter(it_, p_, k_, nd_):
+                if len(p_) == 1 and isinstance(p_[0], (tuple, list, str)):
+                    try:
+                        return p_[0][k0]
+                    except IndexError:
+                        return Crash("IndexError: operator.itemgetter beyond the end of a sequence")
+                return Unknown("operator.itemgetter of a value that is not a literal sequence")
+            return Native("itemgetter", getter)
+        if name == "operator.attrgetter" and n == 1 and not kw and isinstance(pos[0], str) and "." not in pos[0]:
+            a0 = pos[0]
+            return Native("attrgetter", lambda it_, p_, k_, nd_: it_._getattr(p_[0], a0, nd_) if len(p_) == 1 else Unknown("attrgetter"))
+        if name == "operator.methodcaller" and n >= 1 and isinstance(pos[0], str):
+            m0, pre, prekw = pos[0], list(pos[1:]), dict(kw)
+
+            def caller(it_, p_, k_, nd_):
+                if len(p_) != 1:
+                    return Unknown("methodcaller")
+                f_ = it_._getattr(p_[0], m0, nd_) if isinstance(p_[0], (Obj, ClassV)) else None
+                if isinstance(f_, FuncV):
+                    return it_.apply(f_, pre, prekw, nd_, fr)
+                if isinstance(p_[0], (F.Rat, str, DictV, tuple, list)):
+                    return it_._call_value_method(p_[0], m0, pre, prekw, nd_, fr)
+                return Unknown("methodcaller on a value the evaluator has no methods for")
+            return Native("methodcaller", caller)
         if name == "functools.reduce" and n in (2, 3) and not kw:
             seq = self._iterable(pos[1])
             if seq is None or not isinstance(pos[0], (FuncV, ClassV, Ref, Native)):
@@ -1918,6 +2613,19 @@ class Interp:
                 if is_unknown(acc):
                     return acc
             return acc
+        if name in NP_ARITH and n == NP_ARITH[name][1] and not kw:
+            if n == 1:
+                v = to_rat(pos[0])
+                return v if is_unknown(v) else -v
+            return self.binop(NP_ARITH[name][0](), pos[0], pos[1], node)
+        if name == "np.copyto" and n == 2 and not kw and self.erase and isinstance(pos[0], F.Rat):
+            src = to_rat(pos[1])
+            self._note_inplace(pos[0], node)
+            if isinstance(src, F.Rat) and not is_unknown(src):
+                self._set_rat(pos[0], src)
+            else:
+                self._clobber(pos[0], "np.copyto of a value that could not be evaluated")
+            return None
         if name == "divmod" and n == 2 and not kw:
             return (self.binop(ast.FloorDiv(), pos[0], pos[1], node), self.binop(ast.Mod(), pos[0], pos[1], node))
         if name == "slice" and 1 <= n <= 3 and not kw:
@@ -1931,14 +2639,14 @@ class Interp:
                 return next(x for x in rs if is_unknown(x))
             return F.fn("slice", *rs)
         if name == "isinstance" and n == 2:
-            ts = pos[1] if isinstance(pos[1], tuple) else (pos[1],)
+            ts = pos[1] if isinstance(pos[1], SEQ) else (pos[1],)
             if all(isinstance(t, Ref) for t in ts):
                 names = {t.name for t in ts}
                 v = pos[0]
                 if isinstance(v, str):
                     return "str" in names
-                if isinstance(v, tuple):
-                    return bool(names & {"tuple", "list"})       # literal sequences only: the two are not told apart
+                if isinstance(v, SEQ):
+                    return ("tuple" if isinstance(v, tuple) else "list") in names
                 if isinstance(v, DictV):
                     return "dict" in names
                 if v is None or isinstance(v, bool):
@@ -1951,10 +2659,11 @@ class Interp:
     # ------------------------------------------------------------------ following functions of the module
     def _construct(self, cls, pos, kw, node):
         obj = Obj(cls)
-        init = cls.methods.get("__init__")
+        own = self._owner(cls, "__init__")
+        init = own.methods.get("__init__")
         if init is not None:
-            self.src.funcs_consulted.add(f"{cls.mod.rel}:{cls.name}.__init__")
-            self._invoke(FuncV(init, cls.mod, None, obj, cls, f"{cls.name}.__init__"), pos, kw, node)
+            self.src.funcs_consulted.add(f"{own.mod.rel}:{own.name}.__init__")
+            self._invoke(FuncV(init, own.mod, None, obj, own, f"{own.name}.__init__"), pos, kw, node)
         elif self.hook is not None:
             r = self.hook(self, cls.name + ".__init__", [obj] + list(pos), kw, node)
             if r is NotImplemented and (pos or kw):
@@ -2009,7 +2718,19 @@ class Interp:
                 bound[p] = self.ev(d, dfr)
         fr.vars.update(bound)
         rec = self._record(f.qual, f, [v for v in vals], kw, node, bound={k: clone(v) for k, v in bound.items()})
+        if not isinstance(fn, ast.Lambda):
+            odd = [ast.unparse(d) for d in fn.decorator_list if not _transparent_decorator(d)]
+            if odd:
+                # what is called is whatever the decorator returned, not this body
+                rec.result = Unknown(f"{f.qual} is wrapped by a decorator the evaluator does not follow: {odd[0]}")
+                return rec.result
+            if _is_generator(fn):
+                # a generator function: the body runs when items are asked for
+                r = IterV(self._gen_body(fn, fr), f"generator {f.qual}")
+                rec.result = r
+                return r
         self.depth += 1
+        self._loopmode.append(None)
         try:
             if isinstance(fn, ast.Lambda):
                 r = self.ev(fn.body, fr)
@@ -2021,8 +2742,102 @@ class Interp:
                     r = ret.v
         finally:
             self.depth -= 1
+            if self._loopmode:
+                self._loopmode.pop()
         rec.result = clone(r)
         return r
+
+    # ------------------------------------------------------------------ generator functions
+    def _gen_body(self, fn, fr):
+        fr.gen = True          # (its loops are not summarised: an undecided test in it is not lowered)
+        try:
+            yield from self._gen_run(fn.body, fr)
+        except _Return:
+            return
+
+    def _gen_run(self, stmts, fr):
+        """statements of a generator function, as a host generator: a statement without `yield` is executed as usual, a compound statement
+        that contains one is executed here (its tests must be decided; loops over known sequences / decided `while` tests only)"""
+        for st in stmts:
+            if not _has_yield(st):
+                self.stmt(st, fr)
+                continue
+            if isinstance(st, (ast.Expr, ast.Assign, ast.AnnAssign, ast.Return)) and isinstance(st.value, (ast.Yield, ast.YieldFrom)):
+                y = st.value
+                if isinstance(y, ast.Yield):
+                    v = self.ev(y.value, fr) if y.value is not None else None
+                    if is_crash(v):
+                        raise _CrashSig(v)
+                    yield v
+                    got = None                   # (what `send` would deliver: the consumers modelled here only ask for the next item)
+                else:
+                    src = self._iter(self.ev(y.value, fr))
+                    if src is None:
+                        raise Unsupported(f"`yield from` an unknown sequence at line {st.lineno}")
+                    yield from src
+                    got = Unknown("value of `yield from`")
+                if isinstance(st, ast.Assign):
+                    for t in st.targets:
+                        self._bind_target(t, got, fr, st)
+                elif isinstance(st, ast.AnnAssign):
+                    self._bind_target(st.target, got, fr, st)
+                elif isinstance(st, ast.Return):
+                    raise _Return(got, st)
+            elif isinstance(st, ast.If):
+                c = self.decide(st.test, fr)
+                if c is None:
+                    raise Unsupported(f"undecided test around a `yield`: `{ast.unparse(st.test)}` at line {st.lineno}")
+                yield from self._gen_run(st.body if c else st.orelse, fr)
+            elif isinstance(st, ast.For):
+                seq = self._iter(self.ev(st.iter, fr))
+                if seq is None:
+                    raise Unsupported(f"`yield` inside a loop over an unknown sequence at line {st.lineno}")
+                broke = False
+                n = 0
+                for item in seq:
+                    n += 1
+                    if n > MAX_UNROLL:
+                        raise Unsupported("loop too long to unroll")
+                    self._bind_target(st.target, item, fr, st)
+                    try:
+                        yield from self._gen_run(st.body, fr)
+                    except _Break:
+                        broke = True
+                        break
+                    except _Continue:
+                        continue
+                if not broke:
+                    yield from self._gen_run(st.orelse, fr)
+            elif isinstance(st, ast.While):
+                n = 0
+                while True:
+                    c = self.decide(st.test, fr)
+                    if c is None:
+                        raise Unsupported(f"`yield` inside a loop with an undecided test at line {st.lineno}")
+                    if not c:
+                        yield from self._gen_run(st.orelse, fr)
+                        break
+                    n += 1
+                    if n > MAX_UNROLL:
+                        raise Unsupported("generator loop does not terminate under constant folding")
+                    try:
+                        yield from self._gen_run(st.body, fr)
+                    except _Break:
+                        break
+                    except _Continue:
+                        continue
+            elif isinstance(st, ast.With):
+                for it in st.items:
+                    v = self.ev(it.context_expr, fr)
+                    if it.optional_vars is not None:
+                        self._bind_target(it.optional_vars, v, fr, st)
+                yield from self._gen_run(st.body, fr)
+            elif isinstance(st, ast.Try) and not st.handlers:
+                yield from self._gen_run(st.body, fr)
+                yield from self._gen_run(st.orelse, fr)
+                yield from self._gen_run(st.finalbody, fr)
+            else:
+                raise Unsupported(f"`yield` inside {type(st).__name__} at line {st.lineno}")
 
     # ------------------------------------------------------------------ statements
     def run(self, stmts, fr):
@@ -2038,29 +2853,95 @@ class Interp:
     def _s_Pass(self, st, fr):
         pass
 
-    _s_Global = _s_Nonlocal = _s_Assert = _s_Delete = _s_Pass
+    _s_Assert = _s_Pass
+
+    def _s_Nonlocal(self, st, fr):
+        for name in st.names:
+            f = fr.parent
+            while f is not None and name not in f.vars and name not in f.outer:
+                f = f.parent
+            if f is None:
+                raise Unsupported(f"nonlocal {name}: no enclosing binding")
+            fr.outer[name] = f.outer.get(name, f.vars)
+
+    def _s_Global(self, st, fr):
+        mod = fr.mod or self.mod
+        for name in st.names:
+            fr.outer[name] = self._modvars.setdefault(mod.rel, {})
+
+    def _s_Delete(self, st, fr):
+        for t in st.targets:
+            if isinstance(t, ast.Subscript):
+                base = self.ev(t.value, fr)
+                if isinstance(base, list):
+                    ix = self._py_index(t.slice, fr)
+                    if ix is None:
+                        raise Unsupported(f"del with a non-constant index at line {st.lineno}")
+                    self._touch_list(base)
+                    try:
+                        del base[ix]
+                    except IndexError:
+                        raise _CrashSig(Crash(f"IndexError: {ast.unparse(st)}"))
+                elif isinstance(base, DictV):
+                    kv = self.ev(t.slice, fr)
+                    k = key_of(kv)
+                    if k is None or (isinstance(kv, F.Rat) and not is_const(kv)):
+                        raise Unsupported(f"del of a computed dict key at line {st.lineno}")
+                    if k not in base.d:
+                        raise _CrashSig(Crash(f"KeyError: {ast.unparse(st)}"))
+                    self._log("dict", base, k, base.d[k])
+                    del base.d[k]
+                elif isinstance(base, F.Rat) or is_unknown(base):
+                    raise Unsupported(f"del of a part of an array at line {st.lineno}")
+            elif isinstance(t, ast.Name):
+                d = fr.outer.get(t.id, fr.vars)
+                if t.id in d:
+                    self._log("var", d, t.id, d[t.id])
+                    del d[t.id]
 
     def _s_Import(self, st, fr):
         for a in st.names:
             nm = a.asname or a.name.split(".")[0]
             full = _import_full(st, a, (fr.mod or self.mod).rel)
-            fr.vars[nm] = Ref(canon_dotted(full) or full)
+            self._set_var(fr, nm, Ref(canon_dotted(full) or full))
 
     def _s_ImportFrom(self, st, fr):
         for a in st.names:
             if a.name != "*":
                 full = _import_full(st, a, (fr.mod or self.mod).rel)
-                fr.vars[a.asname or a.name] = Ref(canon_dotted(full) or full)
+                self._set_var(fr, a.asname or a.name, Ref(canon_dotted(full) or full))
 
     def _s_Expr(self, st, fr):
         if isinstance(st.value, ast.Constant):
             return
+        n0 = len(self.calls)
         try:
             v = self.ev(st.value, fr)
-        except Unsupported:
-            return
+        except Unsupported as e:
+            v = Unknown(str(e))
         if is_crash(v):
             raise _CrashSig(v)
+        if isinstance(st.value, ast.Call) and v is not None:
+            # a library call (or a method of an array) written as a statement is there for its effect: when the evaluator has no model of
+            # it, the arrays it is given are not known afterwards
+            rec = next((c for c in self.calls[n0:] if c.node is st.value), None)
+            p = fn_parts(v) if isinstance(v, F.Rat) else None
+            modelled = not is_unknown(v) and not (p is not None and p[0].startswith("call:"))
+            if rec is not None and rec.callee is None and not modelled and not rec.name.startswith(NO_EFFECT_STATEMENTS):
+                f = st.value.func
+                args = ([f.value] if isinstance(f, ast.Attribute) and rec.name.startswith(".") else []) + list(st.value.args) \
+                    + [k.value for k in st.value.keywords]
+                for a in args:
+                    # (the record holds snapshots: the live object is the value of the argument expression)
+                    if any(isinstance(x, (ast.Call, ast.Starred, ast.NamedExpr, ast.Yield, ast.Await, ast.Lambda)) for x in ast.walk(a)):
+                        continue
+                    try:
+                        live = self.ev(a, fr)
+                    except Unsupported:
+                        continue
+                    if isinstance(live, F.Rat) and not is_unknown(live) and not is_const(live):
+                        self._note_inplace(live, st)
+                        self._clobber(live, f"{rec.name} called as a statement")
 
     def _s_Return(self, st, fr):
         v = self.ev(st.value, fr) if st.value is not None else None
@@ -2078,7 +2959,10 @@ class Interp:
         raise _Continue()
 
     def _s_FunctionDef(self, st, fr):
-        fr.vars[st.name] = FuncV(st, fr.mod or self.mod, fr, None, None, getattr(st, "_vqual", st.name))
+        self._set_var(fr, st.name, FuncV(st, fr.mod or self.mod, fr, None, None, getattr(st, "_vqual", st.name)))
+
+    def _s_ClassDef(self, st, fr):
+        self._set_var(fr, st.name, Unknown(f"class {st.name} defined inside a function"))
 
     def _s_Assign(self, st, fr):
         v = self.ev(st.value, fr)
@@ -2093,13 +2977,24 @@ class Interp:
 
     def _bind_target(self, t, v, fr, st):
         if isinstance(t, ast.Name):
-            fr.vars[t.id] = v
+            self._set_var(fr, t.id, v)
         elif isinstance(t, (ast.Tuple, ast.List)):
-            if isinstance(v, tuple) and len(v) == len(t.elts) and not any(isinstance(e, ast.Starred) for e in t.elts):
+            if isinstance(v, (IterV, DictV, str)) or (isinstance(v, RepeatV) and is_const(v.count)):
+                v = tuple(self._iterable(v))
+            stars = [k for k, e in enumerate(t.elts) if isinstance(e, ast.Starred)]
+            if isinstance(v, SEQ) and not stars and len(v) == len(t.elts):
                 for e, x in zip(t.elts, v):
                     self._bind_target(e, x, fr, st)
+            elif isinstance(v, SEQ) and len(stars) == 1 and len(v) >= len(t.elts) - 1:
+                k = stars[0]
+                tail = len(t.elts) - 1 - k
+                for e, x in zip(t.elts[:k], v[:k]):
+                    self._bind_target(e, x, fr, st)
+                self._bind_target(t.elts[k].value, list(v[k:len(v) - tail]), fr, st)
+                for e, x in zip(t.elts[k + 1:], v[len(v) - tail:]):
+                    self._bind_target(e, x, fr, st)
             else:
-                if isinstance(v, tuple) and not any(isinstance(e, ast.Starred) for e in t.elts):
+                if isinstance(v, SEQ):
                     raise _CrashSig(Crash(f"ValueError: {len(v)} values to unpack into {len(t.elts)} targets"))
                 why = v if is_unknown(v) else Unknown("tuple unpacking of a non-tuple")
                 for e in t.elts:
@@ -2107,7 +3002,12 @@ class Interp:
         elif isinstance(t, ast.Attribute):
             base = self.ev(t.value, fr)
             if isinstance(base, Obj):
-                base.attrs[t.attr] = v
+                self._set_attr(base, t.attr, v)
+            elif isinstance(base, ClassV):
+                self._log("dict", _ConstsView(base), t.attr, base.consts.get(t.attr, _MISSING))
+                base.consts[t.attr] = v
+        elif isinstance(t, ast.Starred):
+            self._bind_target(t.value, v, fr, st)
         elif isinstance(t, ast.Subscript):
             self._store_subscript(t, v, fr, st, aug=None)
         else:
@@ -2118,10 +3018,36 @@ class Interp:
         if isinstance(base, DictV):
             kv = self.ev(t.slice, fr)
             k = key_of(kv)
-            if k is None:
-                raise Unsupported("dict store with an unhashable key")
-            base.d[k] = (kv, v)
+            if k is None or (isinstance(kv, F.Rat) and not is_const(kv)):
+                raise Unsupported("dict store with a key that is not a literal")
+            if aug is not None:
+                if k not in base.d:
+                    raise _CrashSig(Crash(f"KeyError: {ast.unparse(t)}"))
+                v = self.binop(aug, base.d[k][1], v, st)
+            self._set_item(base, k, (kv, v))
             return
+        if isinstance(base, list):
+            ix = self._py_index(t.slice, fr)
+            if ix is None:
+                self._touch_list(base)
+                base[:] = [Unknown("list store with a non-constant index")]
+                return
+            self._touch_list(base)
+            try:
+                if isinstance(ix, slice):
+                    if aug is not None:
+                        raise Unsupported("augmented assignment to a slice of a list")
+                    xs = self._iterable(v)
+                    if xs is None:
+                        raise Unsupported("a slice of a list assigned from an unknown sequence")
+                    base[ix] = xs
+                else:
+                    base[ix] = v if aug is None else self.binop(aug, base[ix], v, st)
+            except IndexError:
+                raise _CrashSig(Crash(f"IndexError: {ast.unparse(t)} on a list of length {len(base)}"))
+            return
+        if isinstance(base, tuple):
+            raise _CrashSig(Crash("TypeError: 'tuple' object does not support item assignment"))
         if is_unknown(base):
             return
         if isinstance(base, F.Rat):
@@ -2131,10 +3057,10 @@ class Interp:
                     new = to_rat(v)
                 else:
                     new = self.binop(aug, base, v, st)
-                if isinstance(new, F.Rat):
-                    base.n, base.d = new.n, new.d
+                if isinstance(new, F.Rat) and not is_unknown(new):
+                    self._set_rat(base, new)
                 else:
-                    self._poison(t.value, fr, new if is_unknown(new) else Unknown("subscript store"))
+                    self._clobber(base, "a subscript store of a value that could not be evaluated")
                 return
             ix = self._index_value(t.slice, fr)
             if not is_unknown(ix):
@@ -2145,9 +3071,11 @@ class Interp:
             return
         raise Unsupported(f"subscript store into {type(base).__name__}")
 
-    def _poison(self, target, fr, why):
-        if isinstance(target, ast.Name):
-            fr.vars[target.id] = why
+    def _clobber(self, obj, why):
+        """the array object now holds something the evaluator could not follow: every alias sees an opaque value (which the rules treat
+        as not evaluated, never as a value to compare)"""
+        self._merges += 1
+        self._set_rat(obj, F.fn("call:not-followed", F.const(self._merges)))
 
     def _reachable_ids(self):
         seen = set()
@@ -2173,6 +3101,49 @@ class Interp:
     def _s_AugAssign(self, st, fr):
         t = st.target
         if isinstance(t, ast.Subscript):
+            base = self.ev(t.value, fr)
+            if isinstance(base, (list, DictV)):
+                # an element of a list / dict: an array element is updated in place (the object the slot holds), a number is replaced
+                if isinstance(base, list):
+                    ix = self._py_index(t.slice, fr)
+                    if ix is None or isinstance(ix, slice):
+                        self._touch_list(base)
+                        base[:] = [Unknown("augmented assignment to a list element with a non-constant index")]
+                        return
+                    try:
+                        cur = base[ix]
+                    except IndexError:
+                        raise _CrashSig(Crash(f"IndexError: {ast.unparse(t)} on a list of length {len(base)}"))
+                else:
+                    kv = self.ev(t.slice, fr)
+                    ix = key_of(kv)
+                    if ix is None or (isinstance(kv, F.Rat) and not is_const(kv)):
+                        raise Unsupported("dict store with a key that is not a literal")
+                    if ix not in base.d:
+                        raise _CrashSig(Crash(f"KeyError: {ast.unparse(t)}"))
+                    cur = base.d[ix][1]
+                rhs = self.ev(st.value, fr)
+                for v in (cur, rhs):
+                    if is_crash(v):
+                        raise _CrashSig(v)
+                if isinstance(cur, list):
+                    raise Unsupported("augmented assignment to a list held in a list")
+                new = self.binop(st.op, cur, rhs, st)
+                counter = (isinstance(st.op, (ast.Add, ast.Sub)) and is_const(rhs)) \
+                    or isinstance(st.op, (ast.RShift, ast.LShift, ast.FloorDiv, ast.Mod, ast.BitAnd, ast.BitOr, ast.BitXor))
+                if isinstance(cur, F.Rat) and not counter:
+                    self._note_inplace(cur, st)
+                    if isinstance(new, F.Rat) and not is_unknown(new):
+                        self._set_rat(cur, new)
+                    else:
+                        self._clobber(cur, "an in-place update by a value that could not be evaluated")
+                    return
+                if isinstance(base, list):
+                    self._touch_list(base)
+                    base[ix] = new
+                else:
+                    self._set_item(base, ix, (base.d[ix][0], new))
+                return
             self._store_subscript(t, self.ev(st.value, fr), fr, st, aug=st.op)
             return
         if isinstance(t, ast.Name):
@@ -2185,6 +3156,22 @@ class Interp:
         for v in (cur, rhs):
             if is_crash(v):
                 raise _CrashSig(v)
+        if isinstance(cur, list) and isinstance(st.op, (ast.Add, ast.Mult)):
+            # a list is extended / repeated in place
+            if isinstance(st.op, ast.Add):
+                xs = self._iterable(rhs)
+                self._touch_list(cur)
+                if xs is None:
+                    cur[:] = [Unknown("list extended by an unknown sequence")]
+                else:
+                    cur.extend(xs)
+            elif is_const(rhs) and cval(rhs).denominator == 1:
+                self._touch_list(cur)
+                cur[:] = cur * int(cval(rhs))
+            else:
+                self._touch_list(cur)
+                cur[:] = [Unknown("list repeated an unknown number of times")]
+            return
         new = self.binop(st.op, cur, rhs, st)
         # integers are rebound, not updated: counters (`j += 1.0`) and the operators only integers have (`n >>= 1`, `n //= 2`)
         counter = (isinstance(st.op, (ast.Add, ast.Sub)) and is_const(rhs)) \
@@ -2192,9 +3179,11 @@ class Interp:
         if isinstance(cur, F.Rat) and not counter:
             # numpy semantics: the array object is updated, every alias sees it
             self._note_inplace(cur, st)
-            if isinstance(new, F.Rat):
-                cur.n, cur.d = new.n, new.d
+            if isinstance(new, F.Rat) and not is_unknown(new):
+                self._set_rat(cur, new)
                 return
+            self._clobber(cur, "an in-place update by a value that could not be evaluated")
+            return
         self._bind_target(t, new, fr, st)
 
     def _s_If(self, st, fr):
@@ -2215,24 +3204,95 @@ class Interp:
             self.run(st.body, fr)
             return
         what = ast.unparse(st.test)
-        base = dict(fr.vars)
-        outs = []
-        for arm in (st.body, st.orelse):
-            fr.vars = dict(base)
+        # both arms are evaluated from the same state (a trial that is rolled back, then the other arm); what the two leave behind is
+        # compared location by location (locals, arrays / lists / dicts / attributes updated in place): where they differ the value is
+        # not known afterwards
+        finals, origs, made, flows = [], {}, [], []
+        j = None
+        for k, arm in enumerate((st.body, st.orelse)):
+            j = self.begin()
+            flow = None
             try:
                 self.run(arm, fr)
-            except (_Return, _Raise, _Break, _Continue):
-                fr.vars = base
+            except (_Break, _Continue) as e:
+                flow = e
+            except (_Return, _Raise):
+                self.rollback(j)
                 raise Unsupported(f"undecided test guards control flow: `{what}` at line {st.lineno}")
-            except _CrashSig as c:
-                fr.vars = base
-                raise Unsupported(f"an arm of the undecided test `{what}` raises: {c.crash.why}")
-            outs.append(fr.vars)
-        merged = {}
-        for k in set(outs[0]) | set(outs[1]):
-            a, b = outs[0].get(k, Unknown(f"unbound under `{what}`")), outs[1].get(k, Unknown(f"unbound under `{what}`"))
-            merged[k] = a if same_value(a, b) else Unknown(f"assigned differently under undecided test `{what}`")
-        fr.vars = merged
+            except _CrashSig as cs:
+                self.rollback(j)
+                raise Unsupported(f"an arm of the undecided test `{what}` raises: {cs.crash.why}")
+            except BaseException:
+                self.rollback(j)
+                raise
+            flows.append(flow)
+            fin = {}
+            for e in j["undo"]:
+                loc = _loc(e)
+                if loc is None:
+                    continue
+                origs.setdefault(loc, (e, _old_of(e)))
+                fin[loc] = _snapshot(_current(e))
+            finals.append(fin)
+            if k == 0:
+                made = self.rollback(j, keep_calls=True)
+        if flows[0] is not None or flows[1] is not None:
+            # a `break` / `continue` under an undecided test: an exit of the loop being summarised (see _summarize), else not lowered
+            rec = self._loopmode[-1] if self._loopmode else None
+            self.rollback(j)
+            if isinstance(rec, LoopRec) and not fr.gen and (flows[0] is None) != (flows[1] is None) \
+                    and isinstance(flows[0] or flows[1], _Break):
+                self._loop_exit(rec, st, fr, 0 if flows[0] is not None else 1)
+                return
+            raise Unsupported(f"undecided test guards control flow: `{what}` at line {st.lineno}")
+        # the state is the one after the second arm
+        for loc in set(finals[0]) | set(finals[1]):
+            e, old = origs[loc]
+            a = finals[0].get(loc, old)
+            b = finals[1].get(loc, old)
+            same = (a is _MISSING and b is _MISSING) or (a is not _MISSING and b is not _MISSING and same_value(a, b) and not is_unknown(a))
+            if not same:
+                self._poison_loc(e, f"assigned differently under undecided test `{what}`")
+        self.commit(j)
+        if made:
+            # (records of the calls the first arm made are kept, after those of the second: either may have happened)
+            self.calls.extend(made)
+
+    def _poison_loc(self, e, why):
+        k = e[0]
+        if k == "var":
+            self._log("var", e[1], e[2], e[1].get(e[2], _MISSING))
+            e[1][e[2]] = Unknown(why)
+        elif k == "rat":
+            self._clobber(e[1], why)
+        elif k == "attr":
+            self._set_attr(e[1], e[2], Unknown(why))
+        elif k == "dict":
+            self._log("dict", e[1], e[2], e[1].d.get(e[2], _MISSING))
+            e[1].d[e[2]] = (e[1].d.get(e[2], (None, None))[0], Unknown(why))
+        elif k == "list":
+            self._touch_list(e[1])
+            e[1][:] = [Unknown(why)]
+
+    def _loop_exit(self, rec, st, fr, arm):
+        """`if test: <arm that ends in break>` in the single pass over a summarised loop: the test is one of the loop's exits; the pass goes
+        on through the other arm.  What the leaving arm assigns before it breaks is not known after the loop."""
+        leaving, staying = (st.body, st.orelse) if arm == 0 else (st.orelse, st.body)
+        if not isinstance(leaving[-1], ast.Break):
+            raise Unsupported(f"undecided test guards control flow: `{ast.unparse(st.test)}` at line {st.lineno}")
+        for x in leaving[:-1]:
+            for n in ast.walk(x):
+                if isinstance(n, (ast.Break, ast.Continue, ast.Return, ast.Raise)) or \
+                        (isinstance(n, (ast.Subscript, ast.Attribute)) and isinstance(n.ctx, ast.Store)):
+                    raise Unsupported(f"an arm that leaves a loop under the undecided test `{ast.unparse(st.test)}` does more than assign locals")
+        try:
+            tv = self.ev(st.test, fr)
+        except Unsupported as e:
+            tv = Unknown(str(e))
+        at_top = all(same_value(fr.vars.get(n), rec.in_sym(n)) for n in rec.carried)
+        rec.exits.append((tv if isinstance(tv, (F.Rat, bool)) or is_unknown(tv) else to_rat(tv), arm == 0, at_top, st))
+        rec.exit_assigned.update(_assigned_names(leaving[:-1]))
+        self.run(staying, fr)
 
     def _s_Match(self, st, fr):
         """`match` on literal / dotted-name patterns, `|` of those, a capture or wildcard, optional guard: the first case whose pattern
@@ -2257,7 +3317,7 @@ class Interp:
                 return None if und else False
             if isinstance(pat, ast.MatchAs) and pat.pattern is None:
                 if pat.name is not None:
-                    fr.vars[pat.name] = subj
+                    self._set_var(fr, pat.name, subj)
                 return True
             raise Unsupported(f"match pattern {type(pat).__name__} at line {st.lineno}")
 
@@ -2309,65 +3369,127 @@ class Interp:
             it = self.ev(st.iter, fr)
         except Unsupported as e:
             it = Unknown(str(e))
-        seq = self._iterable(it)
-        if seq is not None:
-            if len(seq) > MAX_UNROLL:
-                raise Unsupported("loop too long to unroll")
-            broke = False
-            for item in seq:
-                self._bind_target(st.target, item, fr, st)
+        if is_crash(it):
+            raise _CrashSig(it)
+        known = self._iter(it) is not None if not isinstance(it, IterV) else True
+        if known:
+            # unrolled by constant folding; when a test in the body turns out undecided the trial is rolled back and the loop summarised
+            j = self.begin()
+            try:
+                self._loopmode.append("fold")
                 try:
-                    self.run(st.body, fr)
-                except _Break:
-                    broke = True
-                    break
-                except _Continue:
-                    continue
-            if not broke:
-                self.run(st.orelse, fr)
+                    broke = False
+                    n = 0
+                    for item in self._iter(it):
+                        n += 1
+                        if n > MAX_UNROLL:
+                            raise Unsupported("loop too long to unroll")
+                        self._bind_target(st.target, item, fr, st)
+                        try:
+                            self.run(st.body, fr)
+                        except _Break:
+                            broke = True
+                            break
+                        except _Continue:
+                            continue
+                    if not broke:
+                        self.run(st.orelse, fr)
+                finally:
+                    if self._loopmode:
+                        self._loopmode.pop()
+            except Unsupported as e:
+                self.rollback(j)
+                first = e
+            except BaseException:
+                self.commit(j)
+                raise
+            else:
+                self.commit(j)
+                return
+            items = self._iterable(it)
+            rec = LoopRec(st, "for")
+            rec.trip = F.const(len(items))
+            rec.partial = True
+            try:
+                self._summarize(rec, st, fr, None)
+            except Unsupported as e:
+                raise Unsupported(f"{first}; as a loop summarised by one pass: {e}")
             return
         rec = LoopRec(st, "for")
         if isinstance(it, RangeV):
             rec.trip = it.hi - it.lo
+        elif isinstance(it, RepeatV):
+            rec.trip = to_rat(it.count)
+            rec.item = it.value
         self._summarize(rec, st, fr, None)
 
     def _s_While(self, st, fr):
+        j = self.begin()
         n = 0
-        while True:
-            c = self.decide(st.test, fr)
-            if c is None:
-                if n:
-                    raise Unsupported(f"while test became undecided after {n} iterations: `{ast.unparse(st.test)}`")
-                rec = LoopRec(st, "while")
-                self._summarize(rec, st, fr, st.test)
-                return
-            if c is False:
-                self.run(st.orelse, fr)
-                return
-            n += 1
-            if n > MAX_UNROLL:
-                raise Unsupported(f"while loop does not terminate under constant folding: `{ast.unparse(st.test)}`")
+        try:
+            self._loopmode.append("fold")
             try:
-                self.run(st.body, fr)
-            except _Break:
-                return
-            except _Continue:
-                continue
+                while True:
+                    c = self.decide(st.test, fr)
+                    if c is None:
+                        raise Unsupported(f"while test undecided after {n} iterations: `{ast.unparse(st.test)}`")
+                    if c is False:
+                        self.run(st.orelse, fr)
+                        break
+                    n += 1
+                    if n > MAX_UNROLL:
+                        raise Unsupported(f"while loop does not terminate under constant folding: `{ast.unparse(st.test)}`")
+                    try:
+                        self.run(st.body, fr)
+                    except _Break:
+                        break
+                    except _Continue:
+                        continue
+            finally:
+                if self._loopmode:
+                    self._loopmode.pop()
+        except Unsupported as e:
+            self.rollback(j)
+            first = e
+        except BaseException:
+            self.commit(j)
+            raise
+        else:
+            self.commit(j)
+            return
+        rec = LoopRec(st, "while")
+        rec.partial = n > 0
+        try:
+            self._summarize(rec, st, fr, st.test)
+        except Unsupported as e:
+            raise Unsupported(f"{first}; as a loop summarised by one pass: {e}" if n else str(e))
 
-    def _summarize(self, rec, st, fr, test):
-        rec.k = len(self.loops) + 1
+    def _summarize(self, rec, st, fr, test, extra_carried=()):
+        """one pass over the body on symbols: every carried local starts as <name>@in<k>; afterwards it is <name>@out<k> (or @exit<k> when
+        the loop can also be left from inside its body, or was first tried by unrolling: the rules that understand counted loops do not
+        take those for one).  Anything else the pass changes (an array / list / dict / attribute that existed before the loop, updated
+        in place) is not known afterwards, unless the pass left it as it was."""
+        self._loopk += 1
+        rec.k = self._loopk
         names = _assigned_names(st.body)
         if isinstance(st, ast.For):
             for x in ast.walk(st.target):
                 if isinstance(x, ast.Name) and x.id in names:
                     names.remove(x.id)
-        rec.carried = [n for n in names if n in fr.vars]
+        local = lambda n: n not in fr.outer                 # noqa: E731
+        rec.carried = [n for n in names if n in fr.vars and local(n)] + [n for n in extra_carried if n not in names and n in fr.vars and local(n)]
+        names = names + [n for n in extra_carried if n not in names]
         rec.init = {n: clone(fr.vars[n]) for n in rec.carried}
-        saved = dict(fr.vars)
+        before = {n: fr.vars[n] for n in rec.carried}
+        before_all = set(fr.vars)
+        ins = {}
         for n in rec.carried:
-            fr.vars[n] = rec.in_sym(n)
+            ins[n] = rec.in_sym(n)
+            self._set_var(fr, n, ins[n])
         if isinstance(st, ast.For):
-            self._bind_target(st.target, F.sym(f"<index>@{rec.k}"), fr, st)
+            self._bind_target(st.target, getattr(rec, "item", None) if hasattr(rec, "item") else F.sym(f"<index>@{rec.k}"), fr, st)
+        j = self.begin()
+        self._loopmode.append(rec)
         try:
             if test is not None:
                 try:
@@ -2382,26 +3504,96 @@ class Interp:
             except _CrashSig as c:
                 raise Unsupported(f"the body of a loop with a symbolic trip count raises: {c.crash.why}")
             rec.out = {n: clone(fr.vars.get(n)) for n in rec.carried}
+        except BaseException:
+            self.rollback(j)
+            for n in rec.carried:
+                self._set_var(fr, n, before[n])
+            raise
         finally:
-            new = dict(saved)
-            for n in names:
-                new[n] = rec.out_sym(n) if n in rec.carried else Unknown("assigned inside a symbolic loop")
-            fr.vars = new
+            if self._loopmode and self._loopmode[-1] is rec:
+                self._loopmode.pop()
+        undo = list(j["undo"])
+        # a local array the pass updated in place without assigning the name (np.add(..., out=X), X.fill(..)): it is carried too
+        if not extra_carried:
+            byid = {id(v): n for n, v in fr.vars.items() if isinstance(v, F.Rat) and n not in rec.carried and local(n)}
+            more = [byid[id(e[1])] for e in undo if e[0] == "rat" and id(e[1]) in byid]
+            # (and a local that a closure called in the pass rebinds through `nonlocal`)
+            more += [e[2] for e in undo if e[0] == "var" and e[1] is fr.vars and e[2] not in names and e[2] in before_all
+                     and not (isinstance(st, ast.For) and any(isinstance(x, ast.Name) and x.id == e[2] for x in ast.walk(st.target)))]
+            if more:
+                self.rollback(j)
+                for n in rec.carried:
+                    self._set_var(fr, n, before[n])
+                rec2 = LoopRec(st, rec.kind)
+                rec2.trip = rec.trip
+                if hasattr(rec, "item"):
+                    rec2.item = rec.item
+                rec.__dict__.update(rec2.__dict__)
+                return self._summarize(rec, st, fr, test, tuple(dict.fromkeys(more)))
+        self.commit(j)
+        # a counted loop (for over a range, `while` on a counter: see trip_count) leaves <name>@out<k>; a loop whose number of passes
+        # depends on the data leaves <name>@exit<k> (the rules do not take such a result for a value they can compare)
+        tag = "out" if trip_count(rec) is not None else "exit"
+        rec.out_tag = tag
+        if st.orelse and rec.exits:
+            raise Unsupported(f"`else` of a loop that is left under an undecided test at line {st.lineno}")
+        # what the pass changed besides the locals of this frame
+        in_ids = {id(v) for v in ins.values()}
+        seen = set()
+        for e in undo:
+            loc = _loc(e)
+            if loc is None or loc in seen:
+                continue
+            seen.add(loc)
+            if e[0] == "var" and e[1] is fr.vars:
+                continue
+            if e[0] == "rat" and id(e[1]) in in_ids:
+                continue
+            cur, old = _current(e), _old_of(e)
+            if cur is not _MISSING and old is not _MISSING and same_value(cur, old):
+                continue
+            if e[0] == "var" and not any(e[1] is f.vars for f in self._frames(fr)):
+                continue                                    # (a local of a call that has returned)
+            self._poison_loc(e, f"updated inside the loop at line {st.lineno}, which runs an unknown number of times")
+        for n in names:
+            if not local(n):
+                self._set_var(fr, n, Unknown("a nonlocal name assigned inside a symbolic loop"))
+            elif n in rec.exit_assigned:
+                self._set_var(fr, n, Unknown(f"assigned where the loop at line {st.lineno} is left under an undecided test"))
+            elif n in rec.carried:
+                o = F.sym(f"{n}@{tag}{rec.k}")
+                orig = before[n]
+                if fr.vars.get(n) is ins[n] and isinstance(orig, F.Rat) and not same_value(rec.out[n], ins[n]):
+                    # updated in place: the array the name was bound to before the loop is the one updated (its aliases see it)
+                    self._set_rat(orig, o)
+                    self._set_var(fr, n, orig)
+                else:
+                    self._set_var(fr, n, o)
+            else:
+                self._set_var(fr, n, Unknown("assigned inside a symbolic loop"))
         self.loops.append(rec)
+        if st.orelse:
+            self.run(st.orelse, fr)
 
 
 def trip_count(rec):
     """number of passes of a summarised loop, as a value: `for _ in range(n)` -> n ; `while c > 0: ...; c -= 1` -> initial c ;
     `while c < n: ...; c += 1` -> n - initial c.  None if the loop has no such counter."""
     if rec.trip is not None:
-        return rec.trip
+        return rec.trip if not rec.exits else None
     t = rec.test
+    neg = False
+    if rec.exits:
+        # `while True: if not (c > 0): break ...`: a single exit that stands before anything carried is updated is the loop's test
+        live = [x for x in rec.exits]
+        if len(live) != 1 or not live[0][2] or not (t is True or (is_const(t) and cval(t) != 0)):
+            return None
+        t, neg = live[0][0], live[0][1]
     if not isinstance(t, F.Rat):
         return None
     p = fn_parts(t)
-    neg = False
     if p is not None and p[0] == "not":
-        neg = True
+        neg = not neg
         p = fn_parts(p[1][0])
     if p is None or not p[0].startswith("cmp:"):
         return None
